@@ -140,6 +140,8 @@ func (c *Ctx) NewFA(fn *ssa.Function) *FA {
 	}
 	f.Dead, f.DeadWhy = c.DeadBlocks(fn)
 	f.FieldRange = c.FieldIntRange
+	f.CallRange = c.callRange
+	f.CallLen = c.callLen
 	f.computeLoadClasses()
 	return f
 }
